@@ -11,7 +11,7 @@ A contract module under /verif/contracts is an ordinary Python module:
 Nothing here imports taskchain.
 """
 from . import kinds as K
-from .kinds import Int, Bool, Str, Path, Dyn, DynL, U, Opt, Tup, Rec, Seq, Map, Cls as ClsTag  # re-exported for contract modules
+from .kinds import Int, Bool, Str, Dyn, DynL, U, Opt, Tup, Rec, Seq, Map, Cls as ClsTag, Path as PathK  # re-exported for contract modules
 
 
 # ---------------------------------------------------------------- shapes of symbolic inputs
@@ -177,7 +177,9 @@ class Loop:
 class Contract:
     def __init__(self, id, target, props, inputs, call=None, requires=(), ensures=None, ensures_raise=None,
                  ensures_all=None, callees=None, loops=None, canary=None, assume=(), receiver=None,
-                 covers=None, note='', kwargs=None, as_property=False, bounded=None, l0=()):
+                 covers=None, note='', kwargs=None, as_property=False, bounded=None, l0=(), native_gens=None, searchable=True):
+        self.native_gens = native_gens or {}    # {input name: f(gen, values so far)} generators for the bounded search
+        self.searchable = searchable
         self.id = id
         self.target = target                # 'module:qualname'
         self.props = props                  # {property id: 'decisive' | 'supporting'}
